@@ -23,12 +23,12 @@ def explore(tier):
         e = json.loads(body)
         edges[e["gid"]].append(e)
 
-    lv = 0 if tier == "quick" else 1
-    res = run_tlc("Msg", {"ExhaustiveLevels": lv}, invariants=["AlwaysValid"], properties=MSG_PROPS, spec="MSpec",
+    lv, mx = (0, 1) if tier == "quick" else (1, 3)
+    res = run_tlc("Msg", {"ExhaustiveLevels": lv, "MaxLevel": mx}, invariants=["AlwaysValid"], properties=MSG_PROPS, spec="MSpec",
                   prefix=("MTR",), constraint="LevelBound", env={"GIVEN_FILE": path}, on_line=collect)
     stats.append(res.stats)
-    num, depth = (30, 6) if tier == "quick" else (400, 10)
-    res = run_tlc("Msg", {"ExhaustiveLevels": 99}, invariants=["AlwaysValid"], properties=MSG_PROPS, spec="MSpec",
+    num, depth = (16, 5) if tier == "quick" else (400, 10)
+    res = run_tlc("Msg", {"ExhaustiveLevels": 99, "MaxLevel": 99}, invariants=["AlwaysValid"], properties=MSG_PROPS, spec="MSpec",
                   prefix=("MTR",), env={"GIVEN_FILE": path}, on_line=collect, simulate=num, depth=depth,
                   seed=seed(), workers=1)
     stats.append(res.stats)
@@ -48,7 +48,7 @@ def _run(pid, tier):
     rep.assumptions = [
         "reference semantics = spec/Msg.tla (documented guards + Python list semantics); argument tokens are mapped to "
         "concrete Python objects by vf/msgleg.py (max/min of the field's type, str, float, None, bytes, bool excluded)",
-        "six curated schemas covering every field kind; where the documents are silent the model allows both outcomes "
+        "eight curated schemas covering every field kind; where the documents are silent the model allows both outcomes "
         "(re-enabling a present optional composite; bad value AND bad index; extended slice of another size)",
         "states of the reference model are rebuilt through the public API for the per-edge leg; the history leg keeps "
         "one live pair of messages per walk"]
@@ -61,7 +61,10 @@ def _run(pid, tier):
         es = edges[gid]
         if not es:
             raise MachineryError("TLC produced no transitions for schema %d" % gid)
-        jobs.append((gid, defs, es, n_walks, walk_len, seed() * 100 + gid, {"scratch": scratch_dir("msg")}))
+        parts = max(1, min(6, len(es) // 4000))
+        for k in range(parts):
+            jobs.append((gid, defs, es, n_walks if k == 0 else 0, walk_len, seed() * 100 + gid,
+                         {"scratch": scratch_dir("msg"), "replay": (k, parts)}))
     with ProcessPoolExecutor(max_workers=min(NCPU, len(jobs))) as ex:
         results = list(ex.map(msgleg.worker, *zip(*jobs)))
     n_nontrivial = 0
@@ -79,6 +82,7 @@ def _run(pid, tier):
                 rep.cov["other_property_fails"] = rep.cov.get("other_property_fails", 0) + 1
         rep.cov["edges_replayed"] = rep.cov.get("edges_replayed", 0) + r["n_edges"]
         rep.cov["walks"] = rep.cov.get("walks", 0) + r["n_walks"]
+        rep.cov["aliasing_probes"] = rep.cov.get("aliasing_probes", 0) + r.get("n_probes", 0)
         rep.cov["walk_steps"] = rep.cov.get("walk_steps", 0) + r["n_walk_steps"]
     for k in range(max(2, n_nontrivial)):
         rep.nontrivial(k) if k < n_nontrivial else None
